@@ -18,9 +18,9 @@ def run_lic(test, env, timeout=3400):
     e = dict(env, VERIF_OUT=out, VERIF_SEED=str(vlib.SEED))
     rc, txt, _ = go_overlay_test("serializer", SRC, "^%s$" % test, env=e, timeout=timeout, abs_extra=overlay_extra())
     recs = read_ndjson(out)
-    if vlib.build_failed(txt) or not recs:
+    if vlib.build_failed(txt) or (not recs and "panic:" not in txt):
         raise vlib.Inconclusive("driver %s failed:\n%s" % (test, txt[-3000:]))
-    return recs, rc, txt
+    return recs, rc, txt        # (a crash before the first flush leaves no records: the caller looks at the panic)
 def run():
     t0 = time.time(); v = vlib.Verdict(PID); acc = Acc(); th = vlib.TIER == "thorough"
     # M + G on the archive layout spec
@@ -68,7 +68,7 @@ def run():
         library_panic(v, txt, "serializer driver")      # a panic inside the library (not the driver) is the violation itself
     if rc != 0 and not v.violations:
         raise vlib.Inconclusive("C15 driver ended abnormally:\n" + txt[-3000:])
-    lines = trace_v1(v, acc, recs, "archive round trip")
+    lines = trace_v1(v, acc, recs, "archive round trip") if recs else []
     acc.nontrivial = len({r["memo"] for r in lines if r.get("memo") and (r.get("ms") or r.get("found"))})
     acc.extra["rounds"] = sum(1 for r in recs if r.get("ev") == "keys")
     acc.samples += [{k: r[k] for k in ("round", "want")} for r in recs if r.get("ev") == "keys"][:1]
